@@ -44,6 +44,9 @@ func (t *T0x0704) Parse(jtMsg *jt808.JTMessage) error {
 	start := 3
 	for i := 0; i < int(t.Num); i++ {
 		var item T0x0704LocationItem
+		if start+2 > len(body) {
+			return protocol.ErrBodyLengthInconsistency
+		}
 		item.Len = binary.BigEndian.Uint16(body[start : start+2])
 		if start+2+int(item.Len) > len(body) {
 			return protocol.ErrBodyLengthInconsistency
